@@ -150,3 +150,15 @@ def _(eng, m, g, a): deref(a[0]).items.extend(drain(eng, as_iter(eng, a[1]))); r
 def _(eng, m, g, a): deref(a[0]).items.insert(a[1].v, a[2]); return UNIT
 @model(r"^SmallVec::(remove)$")
 def _(eng, m, g, a): return deref(a[0]).items.pop(a[1].v)
+
+# wrappers whose Default is the Default of what they wrap
+@model(r"^<(?:std::cell::)?(RefCell|Cell)<(.*)> as (?:std::default::)?Default>::default$")
+def _(eng, m, g, a): return RefCellV(eng.call("<%s as Default>::default" % m.group(2), [], []))
+@model(r"^<(?:std::option::|core::option::)?Option<.*> as (?:std::default::)?Default>::default$")
+def _(eng, m, g, a): return none()
+@model(r"^<(?:std::boxed::)?Box<(.*)> as (?:std::default::)?Default>::default$")
+def _(eng, m, g, a): return eng.call("<%s as Default>::default" % m.group(1), [], [])
+@model(r"^<(?:std::rc::)?Rc<(.*)> as (?:std::default::)?Default>::default$")
+def _(eng, m, g, a): return eng.call("Rc::new", [], [eng.call("<%s as Default>::default" % m.group(1), [], [])])
+@model(r"^<\(\) as (?:std::default::)?Default>::default$")
+def _(eng, m, g, a): return UNIT
